@@ -389,6 +389,9 @@ func cmdCheck(args []string) int {
 	seed := envSeed()
 	fmt.Printf("VERIF_SEED=%d property=%s tier=%s\n", seed, *prop, *tier)
 	nw := *workers
+	if v, err := strconv.Atoi(os.Getenv("VERIF_WORKERS")); err == nil && v > 0 && nw <= 0 {
+		nw = v
+	}
 	if nw <= 0 {
 		nw = runtime.NumCPU()
 		if nw > 16 {
